@@ -157,6 +157,35 @@ structure PassOut where
   /-- byte tokens → decoded value, for the bodies installed so far -/
   table : List (Stream.Bytes × Option Body.J)
 
+/-! ### the form decoder under a flat object schema (trusted `Codec.form`; the generator stays inside: fields of the
+schema's own properties, values that parse for their type) -/
+
+def formPairs (t : String) : List (String × String) :=
+  (t.splitOn "&").filterMap (fun kv => match kv.splitOn "=" with
+    | [k, v] => some (k, v)
+    | [k] => if k == "" then none else some (k, "")
+    | _ => none)
+
+def formScalar (ty : Body.Ty) (t : String) : Option Body.J :=
+  if t == "" then none
+  else match ty with
+    | .string => some (.str t)
+    | .number => t.toInt?.map Body.J.num
+    | .boolean => if t == "true" then some (.bool true) else if t == "false" then some (.bool false) else none
+    | .any => none
+
+/-- UrlencodedBodyDecoder: the schema must be an object whose properties are primitives (arrays of primitives are not
+    generated); a field that is absent, empty or does not parse is left out -/
+def formDecode (s : Body.S) (t : String) : Option Body.J :=
+  match s with
+  | .obj _ _ props _ =>
+    if props.all (fun p => match p.2 with | .leaf _ _ => true | _ => false) then
+      some (.obj (props.filterMap (fun p => match p.2 with
+        | .leaf _ ty => (((formPairs t).lookup p.1).bind (formScalar ty)).map (fun x => (p.1, x))
+        | _ => none)))
+    else none
+  | _ => none
+
 def lookupBytes (t : List (Stream.Bytes × Option Body.J)) (b : Stream.Bytes) : Option Body.J :=
   match t with
   | [] => none
@@ -171,7 +200,10 @@ def evalBody (su : Setup) (table : List (Stream.Bytes × Option Body.J)) (fresh 
   let enc := fun (v : Body.J) => match lookupBytes table data with
     | some dv => if canonical && Body.J.beq v dv then data else fresh
     | none => fresh
-  let cd : Media.Codec := { parse := fun d => lookupBytes table d, yaml := fun d => lookupBytes table d,
+  let form := fun (_ : Stream.Bytes) => match Media.selected su.declared su.header with
+    | some (some s) => formDecode s su.origText
+    | _ => none
+  let cd : Media.Codec := { parse := fun d => lookupBytes table d, yaml := fun d => lookupBytes table d, form := form,
                             text := fun _ => su.origText, enc := enc }
   let out := if su.useSpec then Media.specOutcome su.ctx su.declared su.header cd data
              else Media.bodyOutcome su.ctx su.declared su.header cd data
@@ -242,7 +274,7 @@ def handle (j : Json) : Json :=
     ((strs (asArr q)).foldr insName []).map (fun n => { declared := declared.contains n, auth := authOf n }))
   let bs := getD j "bodySpec" Json.null
   let skip := getBool o "skip"
-  let ctx : Body.Ctx := { setDefaults := !skip, roDisabled := getBool o "roDisabled", multi := getBool o "multi" }
+  let ctx : Body.Ctx := { setDefaults := !skip, roDisabled := getBool o "roDisabled" }
   let bodyText : Option String := match j.getObjVal? "body" with | .ok (.str s) => some s | _ => none
   let origVal : Option Body.J := match bodyText with
     | some t => (match Json.parse t with | .ok v => some (toJ v) | .error _ => none)
@@ -265,11 +297,11 @@ def handle (j : Json) : Json :=
       | some t => (match Json.parse t with | .ok v => v.compress == t | .error _ => false)
       | none => false }
   let stm := getD j "stream" Json.null
-  let clKnown := getStr stm "cl" != "unknown"
+  let clKnown := getStr stm "cl" != "unknown" && getStr stm "cl" != "zero"
   let r0 : Stream.Req := {
     body := bodyText.map (fun _ => origBytes),
     getBody := if bodyText.isNone then .none else match getStr stm "getBody" with | "ok" => .ok origBytes | "fails" => .fails | _ => .none,
-    contentLength := if clKnown then origBytes.length else -1 }
+    contentLength := match getStr stm "cl" with | "unknown" => -1 | "zero" => 0 | _ => origBytes.length }
   let st0 := toStore (getArr j "store")
   let reuse := getBool j "reuseInput"
   let p1 := runPass su 1 st0 r0 st0 [(origBytes, origVal)]
@@ -278,11 +310,13 @@ def handle (j : Json) : Json :=
   let p2 := runPass su 2 (if reuse then p1.view else p1.store) p1.req p1.store p1.table
   -- spec
   let selS := Media.selected su.declared header
-  let cd0 : Media.Codec := { parse := fun _ => origVal, yaml := fun _ => origVal, text := fun _ => su.origText, enc := fun _ => [] }
+  let form0 : Option Body.J := match selS with | some (some s) => formDecode s su.origText | _ => none
+  let cd0 : Media.Codec := { parse := (fun _ => origVal), yaml := (fun _ => origVal), form := (fun _ => form0), text := (fun _ => su.origText), enc := (fun _ => []) }
   let v0 : Option Body.J := Media.decoded header cd0 origBytes
   let bodyReached := su.hasBodySpec && !su.excludeBody && bodyText.isSome && !origBytes.isEmpty && !su.declared.isEmpty
   let bodyActive := bodyReached && (match selS with | some (some _) => true | _ => false) && v0.isSome &&
-    (Media.decoderOf (Media.base header) == .json || Media.decoderOf (Media.base header) == .yaml)
+    (Media.decoderOf (Media.base header) == .json || Media.decoderOf (Media.base header) == .yaml ||
+     Media.decoderOf (Media.base header) == .form)
   let selSchema : Option Body.S := match selS with | some (some s) => some s | _ => none
   let specBody : Json := match selSchema, v0 with
     | some s, some v => (match Body.specVisit ctx s v with | some v' => ofJ v' | none => Json.null)
@@ -300,9 +334,7 @@ def handle (j : Json) : Json :=
        (if bodyActive && !skip && Body.BranchShift ctx s v then ["BranchShift"] else [])
      | _, _ => []) ++
     (if su.params.any (fun p => Params.DefaultReadsAsEmpty skip p st0) then ["DefaultReadsAsEmpty"] else []) ++
-    (if su.params.any (fun p => Params.EmptyArrayWritten skip p st0) then ["EmptyArrayWritten"] else []) ++
     (if noEnc then ["NoBodyEncoder"] else []) ++
-    (if bodyReached && Media.ReencodedUnchanged ctx su.declared header cd0 origBytes then ["ReencodedUnchanged"] else []) ++
     (if su.params.any (fun p => Params.ContentParamDefault skip p st0) then ["ContentParamDefault"] else [])
   let anyReq := fun (f : Stream.Scheme → Bool) => reqs.any (fun q => q.any f)
   let branches := dedup (
@@ -317,7 +349,10 @@ def handle (j : Json) : Json :=
     (if reqs.length > 1 then ["sec.manyReqs"] else []) ++
     (if bodyText.isNone then ["stream.noBody"] else match r0.getBody with
       | .none => ["stream.getBodyNil"] | .fails => ["stream.getBodyFails"] | .ok _ => []) ++
-    (if !clKnown then ["stream.clUnknown"] else []) ++
+    (if getStr stm "cl" == "unknown" then ["stream.clUnknown"] else []) ++
+    (if getStr stm "cl" == "zero" && bodyText.isSome then ["stream.clZeroWithBody"] else []) ++
+    (if getStr stm "kind" == "pipe" && bodyText.isSome then ["stream.pipe"] else []) ++
+    (if getStr stm "kind" == "nil" && bodyText.isNone then ["stream.nilBody"] else []) ++
     (if origBytes.isEmpty && bodyText.isSome then ["stream.emptyBody"] else []) ++
     (if bodyText.isSome && origVal.isNone then ["body.notJSON"] else []) ++
     (if bodyActive && (match origVal with | some v => hasNullMember v | none => false) then ["body.explicitNull"] else []) ++
@@ -331,7 +366,7 @@ def handle (j : Json) : Json :=
     (if su.declared.length > 1 then ["media.several"] else []) ++
     (if bodyReached && (match selS with | some none => true | _ => false) then ["media.noSchema"] else []) ++
     (if bodyReached then (match Media.decoderOf (Media.base header) with
-       | .none => ["media.noDecoder"] | .plain => ["media.plain"] | .yaml => ["media.yaml"]
+       | .none => ["media.noDecoder"] | .plain => ["media.plain"] | .yaml => ["media.yaml"] | .form => ["media.form"]
        | .json => if Media.base header != "application/json" then ["media.jsonFamily"] else []) else []) ++
     (if !pathParams.isEmpty then ["param.pathLevel"] else []) ++
     (if pathParams.any (Params.overridden opParams) then ["param.overridden"] else []) ++
